@@ -89,7 +89,7 @@ CLAIMED["C15"] = dict(
 )
 
 CLAIMED["C18"] = dict(
-    technique="finite-domain abstract interpretation of the CLI's --inject and decompile arms (opaque pickle records; dumps/injections/interpreter constructions recorded, not performed) for all n<=3, all targets, all flag combinations; CFG dominance for the range guard; structural rules for the variable counter",
+    technique="finite-domain abstract interpretation of the CLI's --inject and decompile arms (opaque pickle records; dumps/injections/interpreter constructions recorded, not performed) for all n<=3, all targets, all flag combinations; CFG dominance for the range guard; structural rules for the variable counter; interpretation of ConstantOpcode.new(payload).encode() over text payload classes (accepted implies serialisable)",
     level="Decides that the --inject arm emits exactly n pickles with only the target injected once (with the requested flags) and everything else dumped verbatim in order, that an out-of-range target returns non-zero having written nothing, and that the decompile arm gives every stacked pickle a fresh block of `_var` ids and its own result name on both the trace and non-trace paths. Byte identity of untouched pickles is C06's, validity of each program C05's.",
     note="Trusted: sa/minieval.py; that 3 stacked pickles exercise every index relation the arm's slices/loops can distinguish (the arm only uses target, target+1 and the ends).",
 )
@@ -113,7 +113,7 @@ CLAIMED["C17"] = dict(
 )
 
 CLAIMED["C16"] = dict(
-    technique="finite-domain abstract interpretation of inject_payload's insertion arm over an abstract zip archive (opaque member records incl. an empty member and a look-alike name; opens/reads/writes/renames/removes and the injection call recorded), plus structural rules for the member predicate and the per-wrapper parse",
+    technique="finite-domain abstract interpretation of inject_payload's insertion arm over an abstract zip archive (opaque member records incl. an empty member and a look-alike name; opens/reads/writes/renames/removes and the injection call recorded), plus structural rules for the member predicate and the per-wrapper parse; interpretation of ConstantOpcode.new(payload).encode() over text payload classes (accepted implies serialisable)",
     level="Archive-level clauses only, explicitly partial: every member of the input archive is written once, in order, under the same name and byte-verbatim except the model pickle, which is the re-serialisation after exactly one injection of the payload; the member replaced is the member parsed; the input is only read unless overwrite is requested, in which case the output is renamed onto it and no stray output remains; the parsed pickle is per wrapper. That loading runs the payload exactly once and reconstructs an equal model (tensor/storage integrity, zip metadata) needs torch at run time and is NOT claimed.",
     note="Trusted: sa/minieval.py interpreting the method's own source; the seven-member abstract archive exercises every relation the loop body can distinguish (is/ is not the model pickle, empty/non-empty, look-alike suffix).",
 )
